@@ -93,6 +93,8 @@ Eval(e, loc) ==
     [] e[1] = "or"    -> Eval(e[2], loc) \/ Eval(e[3], loc)
     [] e[1] = "not"   -> ~Eval(e[2], loc)
     [] e[1] = "ite"   -> IF Eval(e[2], loc) THEN Eval(e[3], loc) ELSE Eval(e[4], loc)
+    \* sum of the operands, written in Python as a reduction over a stacked array
+    [] e[1] = "ssum"  -> RSum(2..Len(e), LAMBDA i : Eval(e[i], loc))
     \* table look-up: e[2] = names of integer-valued arguments, e[3] = nested table
     [] e[1] = "tab"   -> Dig(e[3], [i \in DOMAIN e[2] |-> loc[e[2][i]][1]])
 
@@ -185,7 +187,8 @@ Template(M) ==
 \* "" when the model is inside the scope the properties quantify over, otherwise the reason
 StaticScope(M) ==
   IF AuxStates(M) # {} THEN "state-only-in-transition"
-  ELSE IF \E f \in FuncsOfKind(M, "filter") : Anc(M, f) \cap StateNames(M) = {} THEN "filter-without-state"
+  ELSE IF FuncsOfKind(M, "filter") # {} /\ \A f \in FuncsOfKind(M, "filter") : Anc(M, f) \cap StateNames(M) = {}
+     THEN "filters-without-state"        \* restricted choices but no restricted state (known finding D15)
   ELSE IF \E f \in FuncsOfKind(M, "filter") : \E v \in Anc(M, f) : IsCont(VarRec(M, v)) THEN "filter-on-continuous"
   ELSE ""
 =============================================================================
